@@ -42,6 +42,7 @@ type File struct {
 	Package  string
 	Syntax   string // "proto2" | "proto3" | "2023" (edition) | "" (no syntax line: proto2)
 	Options  []*Opt
+	Features []*Opt // editions: file-level `option features.<Name> = Val;`
 	Messages []*Message
 	Enums    []*Enum
 	Services []*Service
@@ -76,6 +77,7 @@ type Field struct {
 	JSType   string
 	CType    string
 	Features []*Opt // editions: features.<Name> = Val
+	Packed   string // proto2 / proto3: "", "true", "false" ([packed = ...])
 }
 
 type EnumValue struct {
@@ -149,6 +151,52 @@ func (f *File) Opt(name string) *Opt {
 	return nil
 }
 
+// Feature is the file-level value of an editions feature ("" = edition default).
+func (f *File) Feature(name string) string {
+	for _, o := range f.Features {
+		if o.Name == name {
+			return o.Val
+		}
+	}
+	return ""
+}
+
+func (f *File) SetFeature(name, val string) {
+	for i, o := range f.Features {
+		if o.Name == name {
+			if val == "" {
+				f.Features = append(f.Features[:i:i], f.Features[i+1:]...)
+			} else {
+				o.Val = val
+			}
+			return
+		}
+	}
+	if val != "" {
+		f.Features = append(f.Features, &Opt{name, val})
+	}
+}
+
+// Delimited: is the field group-encoded by an editions feature (set on the field, or inherited
+// from the file)?  Map fields are never delimited (protobuf-go keeps MessageKind for them).
+func Delimited(f *File, fl *Field) bool {
+	if !f.IsEditions() || fl.Ref != RefMsg || fl.MapKey != "" || fl.Group != nil {
+		return false
+	}
+	switch fl.Feature("message_encoding") {
+	case "DELIMITED":
+		return true
+	case "LENGTH_PREFIXED":
+		return false
+	}
+	return f.Feature("message_encoding") == "DELIMITED"
+}
+
+// DelimitedInherited: delimited only because the file says so.
+func DelimitedInherited(f *File, fl *Field) bool {
+	return Delimited(f, fl) && fl.Feature("message_encoding") == ""
+}
+
 func (f *Field) Feature(name string) string {
 	for _, o := range f.Features {
 		if o.Name == name {
@@ -211,6 +259,9 @@ type MsgLoc struct {
 	Nested string // name within the file ("A.B")
 	Depth  int
 	Group  *Field // the group field that declares M, if any
+	// Ext != nil: not a message at all but the pseudo location of an extension field, so that
+	// the field operators can be applied to extensions (M is an empty dummy, Full is "").
+	Ext *extSite
 }
 
 func (s *Schema) Msgs() []MsgLoc {
@@ -444,7 +495,10 @@ func (el EnumLoc) IsOpen() bool {
 	case el.F.IsProto3():
 		return true
 	case el.F.IsEditions():
-		return el.E.EnumType != "CLOSED"
+		if el.E.EnumType != "" {
+			return el.E.EnumType != "CLOSED"
+		}
+		return el.F.Feature("enum_type") != "CLOSED"
 	}
 	return false
 }
@@ -542,9 +596,16 @@ func (g *gen) genEnum(f *File, scope string) *Enum {
 	n := 1 + r.Intn(4)
 	first := 0
 	closed := f.IsProto2()
-	if f.IsEditions() && r.Chance(1, 3) {
-		e.EnumType = "CLOSED"
-		closed = true
+	if f.IsEditions() {
+		switch {
+		case f.Feature("enum_type") == "CLOSED":
+			closed = true
+			if r.Chance(1, 3) {
+				e.EnumType, closed = "OPEN", false
+			}
+		case r.Chance(1, 3):
+			e.EnumType, closed = "CLOSED", true
+		}
 	}
 	if closed && r.Chance(1, 3) {
 		first = 1 + r.Intn(3)
@@ -693,7 +754,7 @@ func (g *gen) genField(f *File, m *Message, scope string, depth int, inOneof boo
 	case k < 2 && !inOneof: // map
 		fl.MapKey = hx.Pick(r, mapKeyTypes)
 		g.genType(f, fl, true)
-	case k < 3 && !inOneof && f.Syntax == "proto2" && depth < 3: // group
+	case k < 3 && f.Syntax == "proto2" && depth < 3: // group (also as a oneof member)
 		gm := &Message{Name: "Grp" + g.s.fresh("")}
 		fl.Name = strings.ToLower(gm.Name)
 		fl.Group = gm
@@ -702,15 +763,28 @@ func (g *gen) genField(f *File, m *Message, scope string, depth int, inOneof boo
 			gm.Fields = append(gm.Fields, g.genField(f, gm, scope+gm.Name+".", depth+1, false))
 		}
 		fl.Label = hx.Pick(r, []string{"optional", "optional", "repeated"})
+		if inOneof {
+			fl.Label = ""
+		}
 		g.msgs = append(g.msgs, tinfo{Full: scope + gm.Name, F: f, M: gm})
 		return fl
 	default:
 		g.genType(f, fl, true)
 	}
+	if f.IsEditions() && fl.Ref == RefMsg && fl.MapKey == "" {
+		// delimited by a feature on the field, or an explicit override of the file default
+		switch x := r.Intn(8); {
+		case x < 2:
+			fl.SetFeature("message_encoding", "DELIMITED")
+		case x < 3:
+			fl.SetFeature("message_encoding", "LENGTH_PREFIXED")
+		}
+	}
 	if inOneof || fl.MapKey != "" {
 		g.genFieldOptions(f, fl)
 		return fl
 	}
+	defer g.genPacked(f, fl)
 	switch {
 	case f.IsProto3():
 		switch x := r.Intn(10); {
@@ -740,6 +814,52 @@ func (g *gen) genField(f *File, m *Message, scope string, depth int, inOneof boo
 	}
 	g.genFieldOptions(f, fl)
 	return fl
+}
+
+// packable: repeated scalar numeric / bool / enum fields
+func packable(fl *Field) bool {
+	if fl.Label != "repeated" || fl.MapKey != "" || fl.Group != nil || fl.Ref == RefMsg {
+		return false
+	}
+	return fl.Ref == RefEnum || (fl.Type != "string" && fl.Type != "bytes")
+}
+
+// genPacked chooses the packed / expanded encoding of a repeated field explicitly now and then.
+func (g *gen) genPacked(f *File, fl *Field) {
+	if !packable(fl) || !g.r.Chance(1, 2) {
+		return
+	}
+	switch {
+	case f.IsEditions():
+		fl.SetFeature("repeated_field_encoding", hx.Pick(g.r, []string{"EXPANDED", "EXPANDED", "PACKED"}))
+	case f.IsProto3():
+		fl.Packed = hx.Pick(g.r, []string{"false", "false", "true"})
+	default:
+		fl.Packed = hx.Pick(g.r, []string{"true", "true", "false"})
+	}
+}
+
+// genFileFeatures: file-level defaults of an editions file (inherited by every element).
+func (g *gen) genFileFeatures(f *File) {
+	if !f.IsEditions() {
+		return
+	}
+	r := g.r
+	if r.Chance(1, 3) {
+		f.SetFeature("message_encoding", "DELIMITED")
+	}
+	if r.Chance(1, 4) {
+		f.SetFeature("enum_type", "CLOSED")
+	}
+	if r.Chance(1, 4) {
+		f.SetFeature("utf8_validation", "NONE")
+	}
+	if r.Chance(1, 4) {
+		f.SetFeature("json_format", "LEGACY_BEST_EFFORT")
+	}
+	if r.Chance(1, 4) {
+		f.SetFeature("repeated_field_encoding", "EXPANDED")
+	}
 }
 
 func roundUp(n, to int) int { return ((n + to - 1) / to) * to }
@@ -843,12 +963,17 @@ func (g *gen) extendable() []tinfo {
 }
 
 // FreeExtNum returns an unused extension number of the message `full`, or 0.
-func (s *Schema) FreeExtNum(full string) int {
+func (s *Schema) FreeExtNum(full string) int { return s.freeExtNumExcept(full, nil) }
+
+func (s *Schema) freeExtNumExcept(full string, taken map[int]bool) int {
 	ml := s.Msg(full)
 	if ml == nil {
 		return 0
 	}
 	used := map[int]bool{}
+	for n := range taken {
+		used[n] = true
+	}
 	for _, xl := range s.ExtendsAll() {
 		if xl.X.Extendee == full {
 			for _, fl := range xl.X.Fields {
@@ -872,12 +997,11 @@ func (g *gen) genExtend(f *File, target tinfo) *Extend {
 	n := 1 + r.Intn(2)
 	for i := 0; i < n; i++ {
 		// numbers already handed out in this block are not yet visible to FreeExtNum
-		num := g.s.FreeExtNum(target.Full)
+		taken := map[int]bool{}
 		for _, prev := range x.Fields {
-			if prev.Num >= num {
-				num = prev.Num + 1
-			}
+			taken[prev.Num] = true
 		}
+		num := g.s.freeExtNumExcept(target.Full, taken)
 		if num == 0 || !inRanges(target.M.ExtRanges, num) {
 			break
 		}
@@ -952,12 +1076,35 @@ func pickSyntax(r *hx.Rand) string {
 	return ""
 }
 
+// Zoo flavours: a "zoo" file holds one field of every (shape, type) combination its syntax allows
+// (see genZoo), so that every planting operator finds every kind of field.
+const (
+	ZooNone              = -1
+	ZooProto2            = 0
+	ZooProto3            = 1
+	ZooEditions          = 2
+	ZooEditionsInherited = 3 // file-level features.message_encoding = DELIMITED (+ other file defaults)
+	NumZoo               = 4
+)
+
 // Generate builds a random schema: 1-3 files (+ sometimes a "solo" file whose package holds a
-// single enum / message / extension) in 1-2 packages.
+// single enum / message / extension, + in half of the cases a zoo file) in 1-3 packages.
 func Generate(r *hx.Rand) *Schema {
+	zoo := ZooNone
+	if r.Bool() {
+		zoo = r.Intn(NumZoo)
+	}
+	return GenerateZoo(r, zoo)
+}
+
+// GenerateZoo is Generate with a chosen zoo flavour.
+func GenerateZoo(r *hx.Rand, zoo int) *Schema {
 	s := &Schema{}
 	g := &gen{r: r, s: s}
 	nFiles := 1 + r.Intn(3)
+	if zoo >= 0 && nFiles == 3 {
+		nFiles = 2 // the zoo file is big
+	}
 	names := []string{"a.proto", "b.proto", "c.proto"}
 	if r.Chance(1, 4) {
 		names[1] = "sub/b.proto"
@@ -987,6 +1134,7 @@ func Generate(r *hx.Rand) *Schema {
 		}
 		s.Files = append(s.Files, f)
 		g.genFileOptions(f)
+		g.genFileFeatures(f)
 		ne := r.Intn(3)
 		for j := 0; j < ne; j++ {
 			f.Enums = append(f.Enums, g.genEnum(f, f.prefix()))
@@ -1055,7 +1203,390 @@ func Generate(r *hx.Rand) *Schema {
 			}
 		}
 	}
+	if zoo >= 0 {
+		g.genZoo(zoo)
+	}
 	return s
+}
+
+// GenerateBig builds a schema of n small files (one message, sometimes an enum / a service, in
+// mixed syntaxes) spread over several directories and packages; later files may use the types of
+// earlier ones.  Large enough images make bufprotosource.NewFiles convert the files in parallel
+// chunks (>= 8 files per worker of thread.Parallelism()).
+func GenerateBig(r *hx.Rand, n int) *Schema {
+	s := &Schema{}
+	g := &gen{r: r, s: s, nMsgs: 100} // no nested messages: files stay small
+	pkgs := []string{"big.a", "big.b", "big.c", "big.a.v1"}
+	dirs := []string{"", "", "a/", "m/x/", "zz/"}
+	for i := 0; i < n; i++ {
+		f := &File{Name: hx.Pick(r, dirs) + hx.Pick(r, []string{"f", "k", "q"}) + s.fresh("") + ".proto",
+			Package: hx.Pick(r, pkgs), Syntax: pickSyntax(r)}
+		s.Files = append(s.Files, f)
+		if r.Chance(1, 4) {
+			g.genFileOptions(f)
+		}
+		g.genFileFeatures(f)
+		if r.Chance(1, 3) {
+			f.Enums = append(f.Enums, g.genEnum(f, f.prefix()))
+		}
+		f.Messages = append(f.Messages, g.genMessage(f, f.prefix(), 3))
+		if r.Chance(1, 5) {
+			f.Services = append(f.Services, g.genService(f))
+		}
+	}
+	return s
+}
+
+// zooCombos lists the (shape, type) combinations of a flavour.  Shapes: singular, implicit
+// (editions IMPLICIT presence), optional3 (proto3 `optional`), required, repeated (default
+// encoding), packed / expanded (the non-default encoding said explicitly), map, oneof, ext.
+// Types: scalar, message, enum, group (proto2), delimited (feature on the field), inherited (the
+// file default makes it delimited), lenprefixed (explicit override of a DELIMITED file default).
+func zooCombos(zoo int) [][2]string {
+	switch zoo {
+	case ZooProto2:
+		return [][2]string{{"singular", "scalar"}, {"singular", "message"}, {"singular", "enum"}, {"singular", "group"},
+			{"required", "scalar"}, {"required", "message"},
+			{"repeated", "scalar"}, {"repeated", "message"}, {"repeated", "enum"}, {"repeated", "group"},
+			{"packed", "scalar"}, {"packed", "enum"},
+			{"map", "scalar"}, {"map", "message"}, {"map", "enum"},
+			{"oneof", "scalar"}, {"oneof", "message"}, {"oneof", "enum"}, {"oneof", "group"},
+			{"ext", "scalar"}, {"ext", "message"}, {"ext", "enum"}, {"extrepeated", "scalar"}}
+	case ZooProto3:
+		return [][2]string{{"singular", "scalar"}, {"singular", "message"}, {"singular", "enum"},
+			{"optional3", "scalar"}, {"optional3", "message"}, {"optional3", "enum"},
+			{"repeated", "scalar"}, {"repeated", "message"}, {"repeated", "enum"}, {"expanded", "scalar"}, {"expanded", "enum"},
+			{"map", "scalar"}, {"map", "message"}, {"map", "enum"},
+			{"oneof", "scalar"}, {"oneof", "message"}, {"oneof", "enum"}}
+	case ZooEditions:
+		return [][2]string{{"singular", "scalar"}, {"singular", "message"}, {"singular", "enum"}, {"singular", "delimited"},
+			{"implicit", "scalar"}, {"required", "scalar"}, {"required", "delimited"},
+			{"repeated", "scalar"}, {"repeated", "message"}, {"repeated", "enum"}, {"repeated", "delimited"},
+			{"expanded", "scalar"}, {"expanded", "enum"},
+			{"map", "scalar"}, {"map", "message"}, {"map", "enum"},
+			{"oneof", "scalar"}, {"oneof", "message"}, {"oneof", "enum"}, {"oneof", "delimited"},
+			{"ext", "scalar"}, {"ext", "message"}, {"ext", "delimited"}, {"extrepeated", "delimited"}}
+	}
+	return [][2]string{{"singular", "scalar"}, {"singular", "inherited"}, {"singular", "enum"}, {"singular", "lenprefixed"},
+		{"required", "inherited"}, {"repeated", "inherited"}, {"repeated", "scalar"}, {"map", "message"}, {"map", "scalar"},
+		{"oneof", "inherited"}, {"oneof", "scalar"}, {"oneof", "lenprefixed"}, {"ext", "inherited"}, {"ext", "scalar"}, {"extrepeated", "inherited"}}
+}
+
+// kindField builds a field of message m (full name `full`) of the given shape and type (see
+// zooCombos); `leafs` are message types and `enumFull` an enum (first value 0) usable from f.
+// Extension shapes get Num 0 (the caller numbers them).
+func (g *gen) kindField(f *File, m *Message, full, shape, typ string, leafs []string, enumFull string) *Field {
+	r, s := g.r, g.s
+	label := func(l string) string {
+		if f.IsProto2() {
+			return l
+		}
+		return ""
+	}
+	fl := &Field{Name: g.fieldName()}
+	isExt := shape == "ext" || shape == "extrepeated"
+	if isExt {
+		fl.Name = "ext_" + s.fresh("")
+	} else {
+		fl.Num = m.nextNum(r)
+	}
+	switch typ {
+	case "scalar":
+		fl.Type, fl.Ref = hx.Pick(r, scalarTypes), RefScalar
+		if shape == "packed" || shape == "expanded" {
+			fl.Type = hx.Pick(r, []string{"int32", "sint64", "fixed32", "double", "bool", "uint64"})
+		}
+	case "enum":
+		fl.Type, fl.Ref = enumFull, RefEnum
+	case "group":
+		gm := &Message{Name: "Grp" + s.fresh("")}
+		gm.Fields = append(gm.Fields, &Field{Name: g.fieldName(), Num: gm.nextNum(nil), Type: hx.Pick(r, scalarTypes), Label: "optional"})
+		fl.Name, fl.Group = strings.ToLower(gm.Name), gm
+		g.msgs = append(g.msgs, tinfo{Full: full + "." + gm.Name, F: f, M: gm})
+	default: // message, delimited, inherited, lenprefixed
+		fl.Type, fl.Ref = hx.Pick(r, leafs), RefMsg
+		switch typ {
+		case "delimited":
+			fl.SetFeature("message_encoding", "DELIMITED")
+		case "lenprefixed":
+			fl.SetFeature("message_encoding", "LENGTH_PREFIXED")
+		}
+	}
+	switch shape {
+	case "singular", "ext":
+		fl.Label = label("optional")
+	case "implicit":
+		fl.SetFeature("field_presence", "IMPLICIT")
+	case "optional3":
+		fl.Label = "optional"
+	case "required":
+		if f.IsEditions() {
+			fl.SetFeature("field_presence", "LEGACY_REQUIRED")
+		} else {
+			fl.Label = "required"
+		}
+	case "repeated", "extrepeated":
+		fl.Label = "repeated"
+	case "packed":
+		fl.Label, fl.Packed = "repeated", "true"
+	case "expanded":
+		fl.Label = "repeated"
+		if f.IsEditions() {
+			fl.SetFeature("repeated_field_encoding", "EXPANDED")
+		} else {
+			fl.Packed = "false"
+		}
+	case "map":
+		fl.MapKey = hx.Pick(r, mapKeyTypes)
+	case "oneof":
+		fl.Oneof = "zoo_choice"
+	}
+	if isExt {
+		if fl.Ref == RefScalar && fl.Label != "repeated" && r.Chance(1, 3) {
+			fl.Default = defaultLit(r, fl.Type)
+		}
+	} else if fl.Group == nil && typ != "enum" {
+		g.genFieldOptions(f, fl)
+	}
+	return fl
+}
+
+// FlavourOf: the zoo flavour whose combinations are valid in file f.
+func FlavourOf(f *File) int {
+	switch {
+	case f.IsProto3():
+		return ZooProto3
+	case f.IsEditions() && f.Feature("message_encoding") == "DELIMITED":
+		return ZooEditionsInherited
+	case f.IsEditions():
+		return ZooEditions
+	}
+	return ZooProto2
+}
+
+// genZoo appends the zoo file: two leaf messages, an enum whose first value is 0, the Zoo message
+// with one field per combination (in random order; oneof members contiguous), its extensions, and
+// sometimes a chain of nested messages five levels deep.
+func (g *gen) genZoo(zoo int) {
+	r, s := g.r, g.s
+	f := &File{Name: "zoo/zoo.proto", Package: hx.Pick(r, []string{"pkg.zoo", "pkg.zoo", "pkg.a", "pkg.a.sub"})}
+	switch zoo {
+	case ZooProto2:
+		f.Syntax = hx.Pick(r, []string{"proto2", "proto2", "proto2", ""})
+	case ZooProto3:
+		f.Syntax = "proto3"
+	default:
+		f.Syntax = "2023"
+	}
+	s.Files = append(s.Files, f)
+	g.genFileOptions(f)
+	if zoo == ZooEditionsInherited {
+		f.SetFeature("message_encoding", "DELIMITED")
+		if r.Bool() {
+			f.SetFeature("enum_type", "CLOSED")
+		}
+		if r.Bool() {
+			f.SetFeature("utf8_validation", "NONE")
+		}
+		if r.Bool() {
+			f.SetFeature("json_format", "LEGACY_BEST_EFFORT")
+		}
+		if r.Bool() {
+			f.SetFeature("repeated_field_encoding", "EXPANDED")
+		}
+	}
+	pre := f.prefix()
+	label := func(l string) string {
+		if f.IsProto2() {
+			return l
+		}
+		return ""
+	}
+	var leafs []string
+	for i := 0; i < 2; i++ {
+		lm := &Message{Name: "Leaf" + s.fresh("")}
+		lm.Fields = append(lm.Fields, &Field{Name: g.fieldName(), Num: lm.nextNum(nil), Type: hx.Pick(r, scalarTypes), Label: label("optional")})
+		f.Messages = append(f.Messages, lm)
+		g.msgs = append(g.msgs, tinfo{Full: pre + lm.Name, F: f, M: lm})
+		leafs = append(leafs, pre+lm.Name)
+	}
+	ze := &Enum{Name: "ZooEnum" + s.fresh("")}
+	for i, w := range []string{"ZERO", "ONE", "TWO"} {
+		ze.Values = append(ze.Values, &EnumValue{Name: upper(ze.Name) + "_" + w, Num: i})
+	}
+	ze.HiNum = 2
+	if f.IsEditions() && f.Feature("enum_type") == "CLOSED" {
+		ze.EnumType = "OPEN"
+	}
+	f.Enums = append(f.Enums, ze)
+	g.enums = append(g.enums, tinfo{Full: pre + ze.Name, F: f, Open: !f.IsProto2(), Zero: true, E: ze})
+
+	m := &Message{Name: "Zoo" + s.fresh("")}
+	full := pre + m.Name
+	g.msgs = append(g.msgs, tinfo{Full: full, F: f, M: m})
+	var plain, members []*Field
+	x := &Extend{Extendee: full}
+	extNum := 1000
+	for _, c := range zooCombos(zoo) {
+		shape, typ := c[0], c[1]
+		isExt := shape == "ext" || shape == "extrepeated"
+		fl := g.kindField(f, m, full, shape, typ, leafs, pre+ze.Name)
+		if isExt {
+			fl.Num = extNum
+			extNum++
+		}
+		switch {
+		case isExt:
+			x.Fields = append(x.Fields, fl)
+		case shape == "oneof":
+			members = append(members, fl)
+		default:
+			plain = append(plain, fl)
+		}
+	}
+	hx.Shuffle(r, plain)
+	hx.Shuffle(r, members)
+	at := r.Intn(len(plain) + 1)
+	m.Fields = append(append(append([]*Field(nil), plain[:at]...), members...), plain[at:]...)
+	if len(x.Fields) > 0 {
+		m.ExtRanges = append(m.ExtRanges, Range{Lo: 1000, Hi: 1099})
+		if m.HiNum < 1099 {
+			m.HiNum = 1099
+		}
+		hx.Shuffle(r, x.Fields)
+		if r.Chance(1, 3) {
+			// declared inside a leaf message of the file
+			f.Messages[0].Extends = append(f.Messages[0].Extends, x)
+		} else {
+			f.Extends = append(f.Extends, x)
+		}
+	}
+	if r.Bool() {
+		// D1 { D2 { D3 { D4 { field; enum } } } } below Zoo: depth 5
+		scope := full + "."
+		host := m
+		for d := 1; d <= 4; d++ {
+			dm := &Message{Name: "D" + strconv.Itoa(d) + "x" + s.fresh("")}
+			dm.Fields = append(dm.Fields, &Field{Name: g.fieldName(), Num: dm.nextNum(r), Type: hx.Pick(r, scalarTypes), Label: label("optional")})
+			host.Nested = append(host.Nested, dm)
+			g.msgs = append(g.msgs, tinfo{Full: scope + dm.Name, F: f, M: dm})
+			scope += dm.Name + "."
+			host = dm
+		}
+		host.Enums = append(host.Enums, g.genEnum(f, scope))
+		host.Reserved = append(host.Reserved, Range{Lo: 50, Hi: 55})
+		host.ReservedNames = append(host.ReservedNames, "deep_old_"+s.fresh(""))
+	}
+	f.Messages = append(f.Messages, m)
+	if r.Chance(1, 2) {
+		f.Services = append(f.Services, g.genService(f))
+	}
+}
+
+// ---------------------------------------------------------------------------------------------
+// Field kinds (what the planting operators are stratified over)
+
+// SyntaxTag: "p2" | "p3" | "ed".
+func SyntaxTag(f *File) string {
+	switch {
+	case f.IsProto3():
+		return "p3"
+	case f.IsEditions():
+		return "ed"
+	}
+	return "p2"
+}
+
+// EffPacked: is a packable repeated field packed?
+func EffPacked(f *File, fl *Field) bool {
+	switch {
+	case f.IsEditions():
+		v := fl.Feature("repeated_field_encoding")
+		if v == "" {
+			v = f.Feature("repeated_field_encoding")
+		}
+		return v != "EXPANDED"
+	case f.IsProto3():
+		return fl.Packed != "false"
+	}
+	return fl.Packed == "true"
+}
+
+// FieldShape classifies cardinality / container of a field.
+func FieldShape(f *File, fl *Field, ext bool) string {
+	switch {
+	case ext && fl.Label == "repeated":
+		return "ext-repeated"
+	case ext:
+		return "ext"
+	case fl.MapKey != "":
+		return "map"
+	case fl.Oneof != "":
+		return "oneof"
+	case isRequired(fl):
+		return "required"
+	case fl.Label == "repeated":
+		if packable(fl) {
+			if EffPacked(f, fl) {
+				return "repeated-packed"
+			}
+			return "repeated-expanded"
+		}
+		return "repeated"
+	case f.IsProto3() && fl.Label == "optional":
+		return "optional3"
+	case f.IsProto3() && fl.Ref != RefMsg, fl.Feature("field_presence") == "IMPLICIT":
+		return "implicit"
+	}
+	return "singular"
+}
+
+// FieldType classifies the element type of a field.
+func FieldType(f *File, fl *Field) string {
+	switch {
+	case fl.Group != nil:
+		return "group"
+	case Delimited(f, fl):
+		if fl.Feature("message_encoding") == "" {
+			return "delim-inherited"
+		}
+		return "delim-field"
+	case fl.Ref == RefMsg:
+		return "message"
+	case fl.Ref == RefEnum:
+		return "enum"
+	}
+	return "scalar"
+}
+
+// FieldKind = shape/type (the syntax of the file is a stratum of its own: Op.SiteSyntax).
+func FieldKind(f *File, fl *Field, ext bool) string {
+	return FieldShape(f, fl, ext) + "/" + FieldType(f, fl)
+}
+
+// MsgJSONAllow / EnumJSONAllow: the resolved features.json_format of an element is ALLOW.
+func MsgJSONAllow(f *File, m *Message) bool {
+	switch {
+	case f.IsProto3():
+		return true
+	case !f.IsEditions():
+		return false
+	case m.JSONFormat != "":
+		return m.JSONFormat == "ALLOW"
+	}
+	return f.Feature("json_format") != "LEGACY_BEST_EFFORT"
+}
+
+func EnumJSONAllow(f *File, e *Enum) bool {
+	switch {
+	case f.IsProto3():
+		return true
+	case !f.IsEditions():
+		return false
+	case e.JSONFormat != "":
+		return e.JSONFormat == "ALLOW"
+	}
+	return f.Feature("json_format") != "LEGACY_BEST_EFFORT"
 }
 
 // ---------------------------------------------------------------------------------------------
@@ -1273,6 +1804,9 @@ func fieldOpts(fl *Field) string {
 	if fl.CType != "" {
 		o = append(o, "ctype = "+fl.CType)
 	}
+	if fl.Packed != "" {
+		o = append(o, "packed = "+fl.Packed)
+	}
 	for _, ft := range fl.Features {
 		o = append(o, "features."+ft.Name+" = "+ft.Val)
 	}
@@ -1451,6 +1985,10 @@ func Render(s *Schema, k Knobs) map[string]string {
 		for _, o := range f.Options {
 			o := o
 			its = append(its, item{f: func() { p.stmt("option " + o.Name + " = " + o.Val + ";") }})
+		}
+		for _, o := range f.Features {
+			o := o
+			its = append(its, item{f: func() { p.stmt("option features." + o.Name + " = " + o.Val + ";") }})
 		}
 		for _, m := range f.Messages {
 			m := m
